@@ -37,6 +37,7 @@ type Datagram struct {
 	Task  int    // writing task
 	Err   string // non-empty: the send failed with this error and nothing was delivered
 	Index int    // position in Network.Log
+	Seq   int    // global history sequence number (set by the harness hook)
 }
 
 // Network is the simulated network of one run.
@@ -48,6 +49,8 @@ type Network struct {
 	SendFault func(c *UDPConn, nth int, size int) error
 	// DialFault, if set, can make DialUDP fail.
 	DialFault func(dest string) error
+	// Hook, if set, is called for every datagram handed to a socket, before the fault decision.
+	Hook func(d *Datagram)
 	Faults    int
 }
 
@@ -132,14 +135,19 @@ func (c *UDPConn) Remote() string {
 // Write sends one datagram.
 func (c *UDPConn) Write(b []byte) (int, error) {
 	simrt.Point(simrt.OpNet, unsafe.Pointer(c))
-	if c.closed {
-		return 0, c.opErr("write", net.ErrClosed)
-	}
 	nw := c.nw
 	c.Sent++
 	d := Datagram{Conn: c.ID, Dest: c.Remote(), Data: append([]byte(nil), b...), Task: simrt.SelfID(), Index: len(nw.Log)}
 	if s := simrt.Active(); s != nil {
 		d.Step = s.Step()
+	}
+	if nw.Hook != nil {
+		nw.Hook(&d)
+	}
+	if c.closed {
+		d.Err = "use of closed network connection"
+		nw.Log = append(nw.Log, d)
+		return 0, c.opErr("write", net.ErrClosed)
 	}
 	if nw.SendFault != nil {
 		if err := nw.SendFault(c, c.Sent, len(b)); err != nil {
